@@ -2,6 +2,7 @@ package main
 
 import (
 	"go/ast"
+	"go/constant"
 	"go/printer"
 	"go/token"
 	"go/types"
@@ -300,7 +301,12 @@ func (in *inliner) normalise(o *types.Func) {
 	in.state[o] = 1
 	fd := in.decls[o]
 	if fd != nil && fd.Body != nil {
+		before := in.count
 		fd.Body = in.block(fd.Body, o)
+		if in.count > before {
+			// a mode argument that arrived as a constant decides branches of the expanded body (if isDelta { … })
+			fd.Body = in.pruneConst(fd.Body)
+		}
 		// function literals inside (per-request closures, goroutine bodies) are normalised in place, innermost last
 		for round := 0; round < 3; round++ {
 			var lits []*ast.FuncLit
@@ -480,6 +486,111 @@ func (in *inliner) simpleBody(fd *ast.FuncDecl, f *types.Func, anyReturns bool) 
 	return true
 }
 
+// stableIn: would arg still denote the value it has at the call when it is evaluated anywhere inside body? Not if it reads a
+// field that body assigns (through whatever base), or reads an element / dereferences while body stores into elements /
+// through pointers.
+func (in *inliner) stableIn(arg ast.Expr, body ast.Node) bool {
+	fields := map[types.Object]bool{}
+	elem, deref := false, false
+	ast.Inspect(arg, func(n ast.Node) bool {
+		switch x := n.(type) {
+		case *ast.UnaryExpr:
+			if x.Op == token.AND {
+				// &a.b.c computes an address: only pointer-typed fields on the way are loaded
+				cur := unparen(x.X)
+				for {
+					sel, isSel := cur.(*ast.SelectorExpr)
+					if !isSel {
+						break
+					}
+					inner := unparen(sel.X)
+					if isel, isInnerSel := inner.(*ast.SelectorExpr); isInnerSel {
+						if _, isPtr := in.info.TypeOf(isel).Underlying().(*types.Pointer); isPtr {
+							if s := in.info.Selections[isel]; s != nil && s.Kind() == types.FieldVal {
+								fields[s.Obj()] = true
+							}
+						}
+					}
+					cur = inner
+				}
+				if _, isID := cur.(*ast.Ident); isID {
+					return false
+				}
+			}
+		case *ast.SelectorExpr:
+			if s := in.info.Selections[x]; s != nil && s.Kind() == types.FieldVal {
+				fields[s.Obj()] = true
+			}
+		case *ast.IndexExpr:
+			elem = true
+		case *ast.StarExpr:
+			deref = true
+		case *ast.FuncLit:
+			return false
+		}
+		return true
+	})
+	if len(fields) == 0 && !elem && !deref {
+		return true
+	}
+	ok := true
+	check := func(l ast.Expr) {
+		switch x := unparen(l).(type) {
+		case *ast.SelectorExpr:
+			if s := in.info.Selections[x]; s != nil && s.Kind() == types.FieldVal && fields[s.Obj()] {
+				ok = false
+			}
+		case *ast.IndexExpr:
+			if elem {
+				ok = false
+			}
+		case *ast.StarExpr:
+			// a store through a pointer can only change what has the pointee's type
+			if deref {
+				ok = false
+			}
+			if t := in.info.TypeOf(x); t != nil {
+				for f := range fields {
+					if types.Identical(f.Type(), t) {
+						ok = false
+					}
+				}
+			}
+		}
+	}
+	ast.Inspect(body, func(n ast.Node) bool {
+		switch s := n.(type) {
+		case *ast.AssignStmt:
+			for _, l := range s.Lhs {
+				check(l)
+			}
+		case *ast.IncDecStmt:
+			check(s.X)
+		case *ast.CallExpr:
+			// a call inside the helper may write anything reachable: fields read by the argument are then not stable
+			if len(fields) > 0 || elem || deref {
+				if c := callee(in.info, s); c != nil && c.Pkg() == in.p.Types {
+					if fd := in.decls[c.Origin()]; fd != nil && fd.Body != nil && fd.Body != body {
+						ast.Inspect(fd.Body, func(m ast.Node) bool {
+							switch t := m.(type) {
+							case *ast.AssignStmt:
+								for _, l := range t.Lhs {
+									check(l)
+								}
+							case *ast.IncDecStmt:
+								check(t.X)
+							}
+							return ok
+						})
+					}
+				}
+			}
+		}
+		return ok
+	})
+	return ok
+}
+
 // simpleArg: may be placed wherever the parameter was used without changing what is evaluated.
 func (in *inliner) simpleArg(e ast.Expr) bool {
 	switch x := unparen(e).(type) {
@@ -603,7 +714,7 @@ func (in *inliner) expand(call *ast.CallExpr, fd *ast.FuncDecl, f *types.Func, e
 			return true
 		}
 		assigned := assignedIn(in.info, fd.Body, p)
-		if in.simpleArg(arg) && !inClosure[p] && !assigned {
+		if in.simpleArg(arg) && !inClosure[p] && !assigned && in.stableIn(arg, fd.Body) {
 			subst[p] = arg
 			return true
 		}
@@ -1558,7 +1669,7 @@ func (in *inliner) guarded(as *ast.AssignStmt, ifs *ast.IfStmt, within *types.Fu
 		if p.Name() == "_" || p.Name() == "" {
 			return
 		}
-		if in.simpleArg(arg) {
+		if in.simpleArg(arg) && in.stableIn(arg, fd.Body) {
 			subst[p] = arg
 			return
 		}
@@ -1789,7 +1900,7 @@ func (in *inliner) expandMulti(as *ast.AssignStmt, call *ast.CallExpr, fd *ast.F
 		if p.Name() == "_" || p.Name() == "" {
 			return
 		}
-		if in.simpleArg(arg) && !inClosure[p] {
+		if in.simpleArg(arg) && !inClosure[p] && in.stableIn(arg, fd.Body) {
 			subst[p] = arg
 			return
 		}
@@ -1891,4 +2002,137 @@ func (in *inliner) movableDefers(fd *ast.FuncDecl) map[*ast.DeferStmt]bool {
 		}
 	}
 	return out
+}
+
+// pruneConst: after an expansion, `if c` whose condition folds to a constant — directly or through locals with one definition
+// that fold (isDelta := DeltaTemporality == DeltaTemporality) — is replaced by the branch taken.
+func (in *inliner) pruneConst(body *ast.BlockStmt) *ast.BlockStmt {
+	// single-definition locals of the body
+	defs := map[types.Object]ast.Expr{}
+	cnt := map[types.Object]int{}
+	ast.Inspect(body, func(n ast.Node) bool {
+		switch s := n.(type) {
+		case *ast.AssignStmt:
+			for i, l := range s.Lhs {
+				if o := objOf(in.info, l); o != nil {
+					if len(s.Lhs) == len(s.Rhs) && (s.Tok == token.DEFINE || s.Tok == token.ASSIGN) {
+						cnt[o]++
+						defs[o] = s.Rhs[i]
+					} else {
+						cnt[o] += 2
+					}
+				}
+			}
+		case *ast.IncDecStmt:
+			if o := objOf(in.info, s.X); o != nil {
+				cnt[o] += 2
+			}
+		case *ast.UnaryExpr:
+			if s.Op == token.AND {
+				if o := objOf(in.info, s.X); o != nil {
+					cnt[o] += 2
+				}
+			}
+		case *ast.RangeStmt:
+			for _, e := range []ast.Expr{s.Key, s.Value} {
+				if e != nil {
+					if o := objOf(in.info, e); o != nil {
+						cnt[o] += 2
+					}
+				}
+			}
+		}
+		return true
+	})
+	depth := 0
+	var env Env
+	env = func(e ast.Expr) (constant.Value, bool) {
+		id, ok := unparen(e).(*ast.Ident)
+		if !ok || depth > 4 {
+			return nil, false
+		}
+		o := in.info.Uses[id]
+		if o == nil || cnt[o] != 1 || defs[o] == nil || !definedIn(in.info, body, o) {
+			return nil, false
+		}
+		depth++
+		v, known := evalConst(in.info, defs[o], env)
+		depth--
+		return v, known
+	}
+	fold := func(cond ast.Expr) (bool, bool) {
+		v, known := evalConst(in.info, cond, env)
+		if !known || v.Kind() != constant.Bool {
+			return false, false
+		}
+		return constant.BoolVal(v), true
+	}
+	var pruneStmt func(s ast.Stmt) ast.Stmt
+	pruneList := func(list []ast.Stmt) ([]ast.Stmt, bool) {
+		var out []ast.Stmt
+		changed := false
+		for _, s := range list {
+			n := pruneStmt(s)
+			if n != s {
+				changed = true
+			}
+			if n != nil {
+				out = append(out, n)
+			}
+		}
+		return out, changed
+	}
+	pruneBlock := func(b *ast.BlockStmt) *ast.BlockStmt {
+		if b == nil {
+			return nil
+		}
+		list, changed := pruneList(b.List)
+		if !changed {
+			return b
+		}
+		return &ast.BlockStmt{Lbrace: b.Lbrace, List: list, Rbrace: b.Rbrace}
+	}
+	pruneStmt = func(s ast.Stmt) ast.Stmt {
+		switch x := s.(type) {
+		case *ast.BlockStmt:
+			return pruneBlock(x)
+		case *ast.IfStmt:
+			if x.Init == nil {
+				if val, known := fold(x.Cond); known {
+					if val {
+						return pruneBlock(x.Body)
+					}
+					if x.Else != nil {
+						return pruneStmt(x.Else)
+					}
+					return &ast.EmptyStmt{Semicolon: x.Pos(), Implicit: true}
+				}
+			}
+			nb := pruneBlock(x.Body)
+			var ne ast.Stmt
+			if x.Else != nil {
+				ne = pruneStmt(x.Else)
+			}
+			if nb == x.Body && ne == x.Else {
+				return x
+			}
+			cp := *x
+			cp.Body, cp.Else = nb, ne
+			return &cp
+		case *ast.ForStmt:
+			if nb := pruneBlock(x.Body); nb != x.Body {
+				cp := *x
+				cp.Body = nb
+				return &cp
+			}
+		case *ast.RangeStmt:
+			if nb := pruneBlock(x.Body); nb != x.Body {
+				cp := *x
+				cp.Body = nb
+				return &cp
+			}
+		}
+		return s
+	}
+	return pruneBlock(body)
 }
